@@ -1,3 +1,67 @@
 //! Safe-Rust verification hooks for this module (accessors/wrappers only; no logic).
 #![allow(unused_imports, dead_code)]
 use super::*;
+
+// ---- C15/C16/C20/C21/C22 (np_server_h): the private rate-limit cache, and the server's cache slots.
+/// Wrapper so that harnesses can drive the crate-private `TimestampedCache<IpAddr>` directly.
+pub struct CacheH(pub(crate) TimestampedCache<IpAddr>);
+impl CacheH {
+    pub fn new(length: usize) -> Self {
+        CacheH(TimestampedCache::new(length))
+    }
+    pub fn is_allowed(&mut self, item: IpAddr, timestamp: Instant, cutoff: Duration) -> bool {
+        self.0.is_allowed(item, timestamp, cutoff)
+    }
+    /// Precondition (as in the code under test): `len() > 0`.
+    pub fn index(&self, item: &IpAddr) -> usize {
+        self.0.index(item)
+    }
+    pub fn len(&self) -> usize {
+        self.0.elements.len()
+    }
+    pub fn slot(&self, i: usize) -> Option<(IpAddr, Instant)> {
+        self.0.elements[i]
+    }
+    pub fn set_slot(&mut self, i: usize, v: Option<(IpAddr, Instant)>) {
+        self.0.elements[i] = v;
+    }
+}
+pub fn server_cache_len<C>(s: &Server<C>) -> usize {
+    s.client_cache.elements.len()
+}
+pub fn server_cache_slot<C>(s: &Server<C>, i: usize) -> Option<(IpAddr, Instant)> {
+    s.client_cache.elements[i]
+}
+pub fn server_cache_set_slot<C>(s: &mut Server<C>, i: usize, v: Option<(IpAddr, Instant)>) {
+    s.client_cache.elements[i] = v;
+}
+pub fn server_cache_index<C>(s: &Server<C>, item: &IpAddr) -> usize {
+    s.client_cache.index(item)
+}
+
+// ---- C17/C18/C19 (np_srvnts_h): `Server::new_internal` with the two address filters supplied
+// ready-made (raw fields; everything else exactly as in `new_internal`).
+pub fn server_from_parts<C>(
+    config: ServerConfig,
+    clock: C,
+    denyfilter: crate::ipfilter::verif_hooks::Filter,
+    allowfilter: crate::ipfilter::verif_hooks::Filter,
+    server_info: Arc<RwLock<NtpServerInfo>>,
+    keyset: Arc<KeySet>,
+) -> Server<C> {
+    let client_cache = TimestampedCache::new(config.rate_limiting_cache_size);
+    Server { config, clock, denyfilter: denyfilter.0, allowfilter: allowfilter.0, client_cache, server_info, keyset }
+}
+
+// ---- C15/C21 (np_server_h): the policy half of `Server::handle` (everything before the
+// response is serialised), and its result type.
+pub use super::HandleInnerData;
+pub fn server_handle_inner<'a, C: NtpClock>(
+    s: &mut Server<C>,
+    client_ip: IpAddr,
+    recv_timestamp: NtpTimestamp,
+    message: &'a [u8],
+    stats_handler: &mut impl ServerStatHandler,
+) -> Result<HandleInnerData<'a>, ServerAction<'static>> {
+    s.handle_inner(client_ip, recv_timestamp, message, stats_handler)
+}
